@@ -24,12 +24,15 @@ def lists(elems, tails):
     return out
 
 def universe():
-    """~120 terms, depth <= 2"""
+    """~126 terms, depth <= 2"""
     u = list(LEAVES)
     u += complexes(SMALL, [atom("a"), X, Y])
     u += lists([atom("a"), integer(1), X, Y], [X, Z, ANON])
     u += [lst([lst([atom("a")])]), lst([EMPTY]), lst([lst([X], Y)]), cplx("f", lst([X])), cplx("f", cplx("f", Y)),
-          lst([cplx("f", X)], Z), lst([atom("a"), atom("b"), atom("a")]), lst([X, Y, Z])]
+          lst([cplx("f", X)], Z), lst([atom("a"), atom("b"), atom("a")]), lst([X, Y, Z]),
+          # the same functor with other arities (prefixes of one another), also nested
+          cplx("f", atom("a"), X), cplx("f", X, atom("a"), Y), cplx("g", X), cplx("g", atom("a"), Y, Z), cplx("f"),
+          cplx("f", cplx("g", atom("a"))), lst([cplx("g", X)], Z)]
     # dedupe, keep order
     seen, out = set(), []
     for t in u:
